@@ -2,7 +2,7 @@
 Model of `Client._mid_generate` (the critical section under `_mid_generate_mutex`),
 instantiated with the literals and comparator extracted from the source.
 -/
-import Paho.Gen.Consts
+import Paho.Gen.MidConsts
 namespace Paho
 
 /-- new value of `_last_mid` (which is also the value returned). -/
